@@ -19,8 +19,8 @@ LAST_FAILURE = None
 
 def assert_counts(ctx, spec=None, n_max=None):
     spec = spec if spec is not None else ctx.spec
-    if spec is None and "iterative" in ctx.pack_opts:
-        return  # an iterative specification need not exist (recursion is only allowed to the start class); C05 covers detection
+    if spec is None and ("iterative" in ctx.pack_opts or "opaque" in ctx.pack_opts):
+        return  # an iterative / backwards-only specification need not exist; detection exactness is C05's / C03's subject
     if spec is None:
         raise Bad("no specification was found although the (finite) universe contains one: %r" % (ctx.error,))
     if spec.root != ctx.start:
